@@ -507,8 +507,10 @@ impl Run {
         let sec_nt = AtomicU64::new(0);
         let fails: Mutex<Vec<(u64, Value, Violation)>> = Mutex::new(vec![]);
         std::thread::scope(|sc| {
-            for _ in 0..WORKERS.min(blocks as usize).max(1) {
+            let section_arc: std::sync::Arc<str> = std::sync::Arc::from(section);
+            for w in 0..WORKERS.min(blocks as usize).max(1) {
                 let (next, fails, f, sec_evals, sec_nt) = (&next, &fails, &f, &sec_evals, &sec_nt);
+                let section_arc = section_arc.clone();
                 sc.spawn(move || {
                     crate::util::install_panic_hook();
                     let mut local_classes: BTreeMap<&'static str, u64> = BTreeMap::new();
@@ -517,7 +519,11 @@ impl Run {
                         if b >= blocks || !fails.lock().unwrap().is_empty() {
                             break;
                         }
+                        // (a block that never returns is named by its number; properties whose `replay` understands
+                        // {"enum_block": n} get it re-judged in a child process by the watchdog)
+                        *SLOTS[w].lock().unwrap() = Some(Slot { since: Instant::now(), section: section_arc.clone(), make: Box::new(move || json!({"enum_block": b})) });
                         let rep = f(b);
+                        *SLOTS[w].lock().unwrap() = None;
                         HEARTBEAT.fetch_add(1, Ordering::Relaxed);
                         sec_evals.fetch_add(rep.evaluations, Ordering::Relaxed);
                         sec_nt.fetch_add(rep.nontrivial, Ordering::Relaxed);
